@@ -72,6 +72,7 @@ struct Runner<'a> {
     /// a scripted child panicked in its poll and the unwind went through the subject: from here on
     /// only the memory-safety oracles stay on (what a collection does after that is unspecified)
     relaxed: bool,
+    budget_hits_seen: u64,
     err_toks_seen: u64,
     vacant_pops_seen: u64,
 }
@@ -99,11 +100,17 @@ impl<'a> Runner<'a> {
         with(|w| w.violate(p, o, d));
     }
 
+    /// Observers under catch_unwind: a panicking size_hint/len is a finding, not a harness crash.
+    fn safe_obs(&self) -> Option<Obs> {
+        let s = self.subj.as_ref()?;
+        F.with(|f| f.quiet_panic.set(true));
+        let o = catch_unwind(AssertUnwindSafe(|| s.obs()));
+        F.with(|f| f.quiet_panic.set(false));
+        o.ok()
+    }
+
     fn groups(&self) -> usize {
-        match &self.subj {
-            Some(s) => s.obs().layout.map(|l| l.1.len()).unwrap_or(1),
-            None => 1,
-        }
+        self.safe_obs().and_then(|o| o.layout.map(|l| l.1.len())).unwrap_or(1)
     }
 
     // ---------------------------------------------------------------------------------------
@@ -619,6 +626,28 @@ impl<'a> Runner<'a> {
                             });
                         }
                     }
+                    PollOut::VecZst(n) => {
+                        last = Last::End;
+                        let first = !self.done;
+                        self.done = true;
+                        with(|w| w.log(0x34, n as u64));
+                        if first && !self.relaxed {
+                            let unfinished = with(|w| inputs.iter().filter(|&&c| w.children[c as usize].completed_at.is_none()).count());
+                            if unfinished > 0 {
+                                self.violate("C07", "resolved-early", format!("{}: resolved while {} inputs have not resolved", ctx, unfinished));
+                            }
+                            if n != inputs.len() {
+                                self.violate("C07", "wrong-length", format!("{}: {} outputs for {} inputs", ctx, n, inputs.len()));
+                            }
+                        }
+                        if first {
+                            with(|w| {
+                                for &c in &inputs {
+                                    w.mark_yielded(c);
+                                }
+                            });
+                        }
+                    }
                     PollOut::VecErr(e) => {
                         last = Last::End;
                         self.done = true;
@@ -707,6 +736,19 @@ impl<'a> Runner<'a> {
                 format!("{}: child {} finished in poll #{} but was not dropped before that poll returned", ctx, c, poll_no),
             );
         }
+        let budget_hits = probes::hits()[0];
+        let budget_stop = budget_hits > self.budget_hits_seen;
+        self.budget_hits_seen = budget_hits;
+        if !lost.is_empty() && !self.relaxed && budget_stop {
+            self.violate(
+                "C13",
+                "budget-stop-without-wake",
+                format!(
+                    "{}: poll #{} stopped on its polling budget and returned Pending without waking its task; children {:?} are still owed a poll",
+                    ctx, poll_no, &lost[..lost.len().min(4)]
+                ),
+            );
+        }
         if !lost.is_empty() && !self.relaxed {
             self.violate(
                 "C01",
@@ -749,7 +791,20 @@ impl<'a> Runner<'a> {
         let Some(s) = &self.subj else { return };
         let kind = self.kind();
         let ctx = kind.name();
-        let o: Obs = s.obs();
+        F.with(|f| f.quiet_panic.set(true));
+        let o: Result<Obs, _> = catch_unwind(AssertUnwindSafe(|| s.obs()));
+        F.with(|f| f.quiet_panic.set(false));
+        let o: Obs = match o {
+            Ok(o) => o,
+            Err(_) => {
+                self.violate(
+                    "C17",
+                    "observer-panicked",
+                    format!("{}: size_hint / len / is_empty / is_terminated panicked", ctx),
+                );
+                return;
+            }
+        };
         if let Some((_, groups)) = &o.layout {
             let mut h = 0xcbf29ce484222325u64;
             for &(c, l) in groups {
@@ -1936,6 +1991,20 @@ impl<'a> Runner<'a> {
                     );
                 }
             }
+            let (zc, zd) = with(|w| (w.zst_created, w.zst_dropped));
+            if zd < zc {
+                self.violate(
+                    "C06",
+                    "output-leak",
+                    format!("{}: {} zero-sized outputs (with a destructor) produced inside were never dropped", ctx, zc - zd),
+                );
+            } else if zd > zc {
+                self.violate(
+                    "C06",
+                    "output-double-drop",
+                    format!("{}: {} zero-sized outputs produced, {} dropped", ctx, zc, zd),
+                );
+            }
             if garbage > 0 {
                 self.violate("C07", "garbage-output", format!("{}: {} values that no child produced were dropped", ctx, garbage));
             }
@@ -2041,8 +2110,9 @@ fn run_inner(cfg: &Config, trace: &[Op]) -> RunResult {
     let class = cfg.subject.class();
     with(|w| {
         w.nd_children = cfg.shape & 1 != 0 && matches!(class, Class::Collection | Class::Join);
-        w.raw_outputs = cfg.shape & 2 != 0 && matches!(class, Class::Collection | Class::Join);
+        w.raw_outputs = cfg.shape & 2 != 0 && cfg.shape & 4 == 0 && matches!(class, Class::Collection | Class::Join);
         w.inexact_iter = cfg.inexact_iter;
+        w.src_hints = cfg.src_hints;
         w.limit = cfg.cap;
         w.up.script = cfg.upstream.clone();
         w.up.released = cfg.up_released.min(cfg.upstream.len());
@@ -2081,6 +2151,7 @@ fn run_inner(cfg: &Config, trace: &[Op]) -> RunResult {
         res: RunResult::default(),
         dead: false,
         relaxed: false,
+        budget_hits_seen: 0,
         err_toks_seen: 0,
         vacant_pops_seen: 0,
     };
